@@ -879,6 +879,38 @@ def run_c17(ex, g, tier):
             ex.violate("history: a call differs from the same call in isolation after the call before it", l, a, iso2[l],
                        note="previous call: " + show_line(hist[i - 1])[:300] if i else "")
             break
+    # aliasing keys: distinct paths that agree under the cheap fingerprints a memo or cache would key on (equal length and 31-/33-multiplier hash,
+    # equal byte sum / xor, equal first and last character, equal 8/16/32-character prefix, equal up to case), looked up in adjacent calls in
+    # both orders and inside one rule; the isolated result is the model's (pure by construction), confirmed on the implementation in a process of its own
+    groups = [["Aa", "BB"], ["AaAa", "BBBB", "AaBB", "BBAa"], ["ab", "ba"], ["axb", "ayb"], ["Key", "key", "KEY"], ["b0", "aO"], ["ac", "bB"],
+              ["k" * 8 + "1", "k" * 8 + "2"], ["p" * 16 + "x", "p" * 16 + "y"], ["q" * 32 + "x", "q" * 32 + "y"], ["q" * 64 + "x", "q" * 64 + "y"],
+              ["user.Aa", "user.BB"], ["Aa.user", "BB.user"], ["0.Aa", "0.BB"], ["a.b", "a\\.b"], ["é", "e\u0301"], ["10", "1e1"], ["1", "01"]]
+    ali = []
+    for grp in groups:
+        vals = {}
+        for i, k in enumerate(grp):
+            cur = vals; segs = k.replace("\\.", "\x00").split("."); segs = [x.replace("\x00", ".") for x in segs]
+            for sgm in segs[:-1]: cur = cur.setdefault(sgm, {})
+            if not isinstance(cur, dict): continue
+            cur.setdefault(segs[-1], "v%d" % i)
+        if "0" in vals: vals = [vals["0"]]
+        for a in grp:
+            for b in grp:
+                if a == b: continue
+                ali += [gen.app({"var": a}, vals), gen.app({"var": b}, vals), gen.app({"var": a}, vals), gen.app({"missing": [b]}, {a: 1}), gen.app({"var": a}, {a: 1}),
+                        gen.app({"missing": [b, a]}, {a: 1}), gen.app({"missing_some": [1, [b]]}, {a: 1}), gen.app({"cat": [{"var": a}, "|", {"var": b}, "|", {"var": a}]}, vals),
+                        gen.app({"var": [b, "dflt"]}, {a: 1}), gen.app({"map": [[{a: 1}, {b: 2}], {"var": b}]}, None)]
+    res = R.impl(ali); mod = R.model(ali)
+    ex.account(ali, res)
+    for i, (l, a, m) in enumerate(zip(ali, res, mod)):
+        if not same(a, m):
+            alone = R.impl([l])[0]
+            if same(alone, m):
+                ex.violate("history: a lookup differs from the same call in isolation after a lookup of a different key that a cheap fingerprint cannot tell apart", l, a, alone,
+                           note="previous calls: " + json.dumps([show_line(x)[:160] for x in ali[max(0, i - 2):i]]))
+            else:
+                ex.foreign.append(dict(kind="impl-vs-model", line=l, case=show_line(l)[:400], impl=a[:200], model=m[:200], owner=owner_of(l)))
+            break
     # N-th call: many failing calls first, then the valid ones again
     failing = [l for l in special if iso2[l].startswith("err")]
     deepfail = {"in": [1, 2]}
